@@ -28,3 +28,25 @@ func vAssumeNoNegZero(n JsonNode) {
 }
 
 func vAssumeNoHashAlias(a, b JsonNode) {}
+
+// vAssumeNoEmptyObjOverObj: the patch has no {} member (at any depth) where the target has an object.
+func vAssumeNoEmptyObjOverObj(t, p JsonNode) {
+	po, ok := p.(jsonObject)
+	if !ok {
+		return
+	}
+	to, tok := t.(jsonObject)
+	if len(po) == 0 {
+		vAssume(!tok || len(to) == 0)
+		return
+	}
+	for k, v := range po {
+		var tv JsonNode = voidNode{}
+		if tok {
+			if x, has := to[k]; has {
+				tv = x
+			}
+		}
+		vAssumeNoEmptyObjOverObj(tv, v)
+	}
+}
